@@ -680,15 +680,26 @@ def glue_trio() -> None:
         if token_provided is None:  # pragma: no cover
             # Trio v0.23.1 had token_provided; v0.24+ don't
             token_provided = trio_token is not None
+        if_not_found: object = None
         if not token_provided:
             # No trio_token specified, so this is a reentrant call
             # back into Trio from a to_thread.run_sync() function.
-            # The in-Trio portion will show up in the stack of
-            # to_thread.run_sync() so don't duplicate it here.
-            # Prune the plumbing (_send_message_to_trio, Queue.get(), etc)
+            # Normally the task that is waiting in to_thread.run_sync()
+            # serves it, so the in-Trio portion will show up in the stack
+            # of to_thread.run_sync() and we shouldn't duplicate it here:
+            # prune the plumbing (_send_message_to_trio, Queue.get(), etc)
             # that's inward of here on the thread's stack.
             frame.hide = True
-            return ()
+            if_not_found = ()
+            # But if the thread was started with abandon_on_cancel=True,
+            # a system task serves the call, just like one from a foreign
+            # thread; _send_message_to_trio knows which token it used.
+            if (
+                not isinstance(next_inner, Frame)
+                or next_inner.funcname != "_send_message_to_trio"
+            ):  # pragma: no cover
+                return if_not_found
+            trio_token = next_inner.pyframe.f_locals.get("trio_token")
 
         # If a trio_token was specified, then this is a call that did not
         # ultimately originate in Trio, so we should try to follow the link
@@ -706,7 +717,7 @@ def glue_trio() -> None:
             try:
                 runner_tlocals = trio._core._run.GLOBAL_RUN_CONTEXT  # type: ignore
             except AttributeError:  # pragma: no cover
-                return None
+                return if_not_found
             for ref in gc.get_referents(runner_tlocals):
                 if not isinstance(ref, dict):
                     continue
@@ -727,23 +738,23 @@ def glue_trio() -> None:
                     continue
                 break
             else:  # pragma: no cover
-                return None
+                return if_not_found
 
             # Find the system task that matches this call. It was spawned
             # with the message's context, but if it is currently serving a
             # reentrant call of its own (it called to_thread.run_sync() and
             # that thread called back) then Trio has temporarily given it
             # a different one; its coroutine is always a method of the message.
-            for task in runner.system_nursery.child_tasks:  # pragma: no branch
+            for task in runner.system_nursery.child_tasks:
                 task_frame = getattr(task.coro, "cr_frame", None)
                 if task.context is message.context or (
                     task_frame is not None
                     and task_frame.f_locals.get("self") is message
-                ):  # pragma: no branch
+                ):
                     frame.hide = True
                     return task.coro
 
-        return None  # pragma: no cover
+        return if_not_found
 
     if trio_threads := getattr(trio, "_threads", None):  # pragma: no branch
         for clsname, fnname in (
